@@ -1,19 +1,20 @@
 package verifharness
 
 import (
+	"strings"
 	"testing"
 
 	"pgregory.net/rapid"
 )
 
-var c17ErrKinds = []string{"err", "perr", "stderr", "serr", "ierr", "errwrap", "errwrapv", "errwrapv", "nilerr", "errstringer", "errfmter", "errsafefmt", "errsafemsg"}
+var c17ErrKinds = []string{"err", "perr", "stderr", "serr", "ierr", "errwrap", "errwrapv", "errwrapv", "nilerr", "errstringer", "errfmter", "errsafefmt", "errsafemsg", "byteerr", "sliceerr", "nilsliceerr"}
 
 func genC17Err(rt *rapid.T, vc *valConfig) *Val {
 	k := c17ErrKinds[rapid.IntRange(0, len(c17ErrKinds)-1).Draw(rt, "ek")]
 	switch k {
-	case "ierr":
+	case "ierr", "byteerr":
 		return vc.leafI(rt, k, false)
-	case "nilerr":
+	case "nilerr", "nilsliceerr":
 		return &Val{K: k}
 	case "errwrap":
 		v := vc.leafS(rt, k, false, false)
@@ -65,7 +66,10 @@ func genC17Operand(rt *rapid.T, vc *valConfig, depth int) *Val {
 		}
 		return vc.leafS(rt, "str", false, false)
 	}
-	k := rapid.IntRange(0, 13).Draw(rt, "pos")
+	k := rapid.IntRange(0, 14).Draw(rt, "pos")
+	if k == 14 {
+		return &Val{K: "berrslice", Sub: []*Val{vc.leafI(rt, "byteerr", false), vc.leafI(rt, "byteerr", false)}}
+	}
 	if depth >= 2 && k >= 3 {
 		k = 0
 	}
@@ -151,7 +155,12 @@ func genC17(rt *rapid.T) *FmtCase {
 		if v := string(d.Verb); v == "p" || v == "T" {
 			c.Args = append(c.Args, genC17Err(rt, vc)) // kept as is in both shapes (same object)
 		} else {
-			c.Args = append(c.Args, genC17Operand(rt, vc, 0))
+			a := genC17Operand(rt, vc, 0)
+			if hasKind(a, map[string]bool{"berrslice": true}) && strings.Contains(d.Flags, "#") {
+				// (Go syntax names the slice's element type, which the stand-in shape changes)
+				d.Flags = strings.ReplaceAll(d.Flags, "#", "")
+			}
+			c.Args = append(c.Args, a)
 		}
 	}
 	// (no EXTRA operands: their report names the operand's type, which is
